@@ -1,5 +1,5 @@
 #!/bin/bash
-# Entry point of every check: ./check.sh <ID> <quick|thorough>   |   ./check.sh replay <ID> <tier> <seed> <idx>
+# Entry point of every check: ./check.sh <ID> <quick|thorough>   |   ./check.sh replay <ID> <replay dir>
 # Rebuilds the harness and the yaccgo CLI from the current working tree of $VERIF_REPO (default /repo),
 # runs the campaign of one property, writes /verif/evidence/<ID>.json and removes its scratch directory.
 set -u
@@ -32,7 +32,10 @@ fi
 ( cd "$VERIF_REPO" && go build -o "$S/yaccgo" ./yaccgo ) > "$S/build2.log" 2>&1 || { echo "INCONCLUSIVE property=$ID: yaccgo CLI does not build"; head -30 "$S/build2.log"; exit 2; }
 export VERIF_YACCGO="$S/yaccgo"
 if [ $MODE = replay ]; then
-  "$S/vcheck" replay "$ID" "$TIER" "${3:?seed}" "${4:?idx}"
+  # ./check.sh replay <ID> <replay dir>   (directory name: <tier>-seed<N>-case<M>)
+  B="$(basename "${2:?replay path}")"
+  RT="${B%%-seed*}"; RS="${B#*-seed}"; RS="${RS%%-case*}"; RI="${B##*-case}"
+  "$S/vcheck" replay "$ID" "$RT" "$RS" "$RI"
 else
   "$S/vcheck" run "$ID" "$TIER"
 fi
